@@ -99,9 +99,11 @@ func (t *Timer) Stop() bool {
 	active := !t.tm.dead
 	t.tm.dead = true
 	// Go >= 1.23: no stale value after Stop
-	select {
-	case <-t.c:
-	default:
+	if t.c != nil {
+		select {
+		case <-t.c:
+		default:
+		}
 	}
 	return active
 }
@@ -114,12 +116,25 @@ func (t *Timer) Reset(d time.Duration) bool {
 	if t.tm != nil {
 		t.tm.dead = true
 	}
-	select {
-	case <-t.c:
-	default:
+	if t.c != nil {
+		select {
+		case <-t.c:
+		default:
+		}
 	}
 	t.arm(d)
 	return active
+}
+
+// TimerCall runs f inside the scheduler when the virtual clock reaches now+d (no thread is
+// created; f must not block). For environment models.
+func TimerCall(d time.Duration, f func()) *Timer {
+	t := &Timer{}
+	if X.teardown {
+		return t
+	}
+	t.tm = X.addTimer(int64(d), f)
+	return t
 }
 
 func AfterFunc(d time.Duration, f func()) *Timer {
